@@ -101,4 +101,4 @@ def nontrivial(r):
 
 def classify(r):
     ops = r["case"].split()[1].split(",")
-    return ["resets=%d" % min(4, ops.count("r")), "fresh" if "n" in ops else "nofresh"]
+    return ["rawtrace_equal" if r["dev"] == r["model"] else "rawtrace_differs", "resets=%d" % min(4, ops.count("r")), "fresh" if "n" in ops else "nofresh"]
